@@ -115,6 +115,23 @@ class ExtSeq:
     def __init__(self, n, arr): self.n, self.arr = n, arr
 
 
+class SliceV:
+    """slice(a, b) with non-negative bounds (b_none: the stop is None, i.e. 'to the end'); step None."""
+    def __init__(self, a, b, b_none): self.a, self.b, self.b_none = a, b, b_none
+
+    def bounds(self, n):
+        """(lo, hi) after Python's clamping to a list of length n."""
+        lo = z3.If(self.a > n, n, self.a)
+        hi = z3.If(self.b_none, n, z3.If(self.b > n, n, self.b))
+        hi = z3.If(hi < lo, lo, hi)
+        return lo, hi
+
+
+class SubListV:
+    """seq._streams[lo:hi] (a copy taken at this moment: elements frozen in `row`)."""
+    def __init__(self, seq, lo, hi, row): self.seq, self.lo, self.hi, self.row = seq, lo, hi, row
+
+
 class ClassV:
     def __init__(self, names): self.names = tuple(names)
 
@@ -339,6 +356,23 @@ class Exec:
                 inr = z3.And(k.t >= 0, k.t < z3.Select(heap.llen, S))
                 if not self.decide(inr): raise _Raise('IndexError')
                 heap.elem = z3.Store(heap.elem, S, z3.Store(z3.Select(heap.elem, S), k.t, self.ref(v).t)); return
+            if isinstance(o, ListV) and isinstance(k, SliceV):
+                # list[lo:hi] = src : old[:lo] + src + old[hi:]
+                S = o.seq.t
+                n_old = z3.Select(heap.llen, S)
+                row = z3.Select(heap.elem, S)
+                lo, hi = k.bounds(n_old)
+                if isinstance(v, ExtSeq):
+                    n_src, at = v.n, (lambda i: z3.Select(v.arr, i))
+                elif isinstance(v, NewList):
+                    n_src, at = v.N, v.allocate(heap)
+                else:
+                    raise Unsupported('slice assignment of something else than a sequence')
+                j = fresh('j')
+                heap.elem = z3.Store(heap.elem, S, z3.Lambda([j], z3.If(j < lo, z3.Select(row, j),
+                                                                        z3.If(j < lo + n_src, at(j - lo), z3.Select(row, j - n_src + (hi - lo))))))
+                heap.llen = z3.Store(heap.llen, S, n_old - (hi - lo) + n_src)
+                return
             if isinstance(o, Ref) and o.cls in ('Inlets', 'Outlets'):
                 self.call_method(o.cls, '__setitem__', o, [k, v], heap, depth + 1); return
             raise Unsupported('subscript store')
@@ -352,25 +386,47 @@ class Exec:
             it = ListV(it)
         if isinstance(it, ExtSeq) and isinstance(s.target, ast.Name):
             return self.for_loop_invariant(s, it, env, heap, depth)
-        if not isinstance(it, ListV) or not isinstance(s.target, ast.Name):
+        if not isinstance(it, (ListV, SubListV)) or not isinstance(s.target, ast.Name):
             raise Unsupported('loop over something else than a port list')
         S = it.seq.t
         j0 = fresh('jl')
         e = fresh('e')
         # body executed once for an arbitrary element e = list[j0]
         before = heap.copy()
+        if isinstance(it, SubListV):
+            lo_, hi_, row_ = it.lo, it.hi, it.row
+        else:
+            lo_, hi_, row_ = z3.IntVal(0), z3.Select(heap.llen, S), z3.Select(heap.elem, S)
         benv = dict(env); benv[s.target.id] = Ref(e, 'StreamLike')
         saved = (self.pc, self.prefix, self.pos, self.taken, self.alts)
-        self.pc = list(self.pc) + [j0 >= 0, j0 < z3.Select(heap.llen, S), heap.el(S, j0) == e]
+        self.pc = list(self.pc) + [j0 >= lo_, j0 < hi_, z3.Select(row_, j0) == e]
         n_pc = len(self.pc)
         h2 = heap.copy()
         self.prefix, self.pos, self.taken, self.alts = [], 0, [], []
-        self.block(s.body, benv, h2, depth)
-        if self.alts or len(self.pc) != n_pc:
+        n_side = len(self.side_obligations)
+        try:
+            try:
+                self.block(s.body, benv, h2, depth)
+                branching = bool(self.alts) or len(self.pc) != n_pc
+            except (_Raise, _Return, _Abort):
+                branching = True
+        finally:
+            self.pc, self.prefix, self.pos, self.taken, self.alts = saved
+        if branching:
+            del self.side_obligations[n_side:]
+            if self.loop_contract is not None:
+                # the body branches or writes elsewhere: inductive invariant over a snapshot of the list (the contract's
+                # invariant must state that the list itself is not changed by the body)
+                if isinstance(it, ListV):
+                    snap = ExtSeq(z3.Select(heap.llen, S), z3.Select(heap.elem, S))
+                else:
+                    jm = fresh('j')
+                    snap = ExtSeq(hi_ - lo_, z3.Lambda([jm], z3.Select(row_, lo_ + jm)))
+                return self.for_loop_invariant(s, snap, env, heap, depth)
             raise Unsupported('branching loop body (needs an invariant)')
-        self.pc, self.prefix, self.pos, self.taken, self.alts = saved
         x = fresh('x')
-        inlist = before.member(S, x)
+        jx = fresh('j')
+        inlist = z3.Exists([jx], z3.And(jx >= lo_, jx < hi_, z3.Select(row_, jx) == x))
         for f in FIELDS:
             old, new = getattr(before, f), getattr(h2, f)
             if new.eq(old): continue
@@ -395,6 +451,7 @@ class Exec:
         lc = self.loop_contract
         if lc is None:
             raise Unsupported('loop over a sequence argument (needs a loop contract)')
+        if hasattr(lc, 'enter'): lc.enter(heap.copy(), it)
         for nm, goal in lc.goal(z3.IntVal(0), heap, self.cands_now):
             self.side_obligations.append((f'loop invariant holds on entry: {nm}', list(self.pc), goal))
         leave = fresh('leave_loop', B)
@@ -510,9 +567,21 @@ class Exec:
                 inr = z3.And(k.t >= 0, k.t < z3.Select(heap.llen, S))
                 if not self.decide(inr): raise _Raise('IndexError')
                 return Ref(heap.el(S, k.t), 'StreamLike')
+            if isinstance(o, ListV) and isinstance(k, SliceV):
+                S = o.seq.t
+                lo, hi = k.bounds(z3.Select(heap.llen, S))
+                return SubListV(o.seq, lo, hi, z3.Select(heap.elem, S))
             if isinstance(o, Ref) and o.cls in ('Inlets', 'Outlets') and isinstance(k, IntV):
                 return self.expr_sub_seq(o, k, heap)
             raise Unsupported('subscript')
+        if isinstance(n, ast.Slice):
+            if n.step is not None: raise Unsupported('slice step')
+            a = self.expr(n.lower, env, heap, depth) if n.lower is not None else IntV(z3.IntVal(0))
+            if n.upper is None:
+                return SliceV(a.t, z3.IntVal(0), z3.BoolVal(True))
+            b = self.expr(n.upper, env, heap, depth)
+            self.obligation('slice bounds are non-negative (negative indices are outside the model)', z3.And(a.t >= 0, b.t >= 0))
+            return SliceV(a.t, b.t, z3.BoolVal(False))
         if isinstance(n, ast.Call):
             return self.call(n, env, heap, depth)
         if isinstance(n, ast.Tuple):
@@ -572,7 +641,7 @@ class Exec:
                 if isinstance(c, Const) and c.v == ('builtin', 'int'):
                     return BoolV(z3.BoolVal(isinstance(o, IntV)))
                 if isinstance(c, Const) and c.v == ('builtin', 'slice'):
-                    return BoolV(z3.BoolVal(False))
+                    return BoolV(z3.BoolVal(isinstance(o, SliceV)))
                 if isinstance(c, ClassV):
                     if isinstance(o, IntV): return BoolV(z3.BoolVal(False))
                     o = self.ref(o)
@@ -585,6 +654,7 @@ class Exec:
             if tag == 'builtin' and name == 'len':
                 a = args[0]
                 if isinstance(a, ListV): return IntV(z3.Select(heap.llen, a.seq.t))
+                if isinstance(a, ExtSeq): return IntV(a.n)
                 if isinstance(a, Ref) and a.cls in ('Inlets', 'Outlets'): return IntV(z3.Select(heap.llen, a.t))
                 raise Unsupported('len')
             if tag == 'builtin' and name in ('type', 'repr'): return Opaque()
@@ -675,6 +745,29 @@ class Exec:
                 raise Unsupported('list comprehension element')
             src = z3.Select(probe.source, r.t); snk = z3.Select(probe.sink, r.t)
             return NewList(self, N.t, src, snk)
+        # [f(i) for i in <caller's sequence>]: the element expression is run once for an arbitrary element; it must not
+        # branch (under the preconditions) nor touch the heap; the result is the sequence of f(seq[m])
+        if len(n.generators) == 1 and not n.generators[0].ifs and isinstance(n.generators[0].target, ast.Name):
+            it = self.expr(n.generators[0].iter, env, heap, depth)
+            if isinstance(it, ExtSeq):
+                j0, e = fresh('jc'), fresh('e')
+                saved = (self.pc, self.prefix, self.pos, self.taken, self.alts)
+                self.pc = list(self.pc) + [j0 >= 0, j0 < it.n, z3.Select(it.arr, j0) == e]
+                n_pc = len(self.pc)
+                probe = heap.copy()
+                self.prefix, self.pos, self.taken, self.alts = [], 0, [], []
+                try:
+                    benv = dict(env); benv[n.generators[0].target.id] = Ref(e, 'StreamLike')
+                    r = self.expr(n.elt, benv, probe, depth)
+                    # decisions pruned to one outcome add their (implied) condition to pc; real forks leave alternatives
+                    branching = bool(self.alts)
+                finally:
+                    self.pc, self.prefix, self.pos, self.taken, self.alts = saved
+                if branching or any(not getattr(probe, f).eq(getattr(heap, f)) for f in FIELDS):
+                    raise Unsupported('comprehension over a sequence argument whose element expression branches or writes')
+                if isinstance(r, Ref) and r.t.eq(e):
+                    return ExtSeq(it.n, it.arr)
+                raise Unsupported('comprehension over a sequence argument that is not the identity under the preconditions')
         raise Unsupported('list comprehension')
 
 
@@ -682,6 +775,21 @@ class NewList:
     """A list of N freshly allocated placeholders (source, sink given)."""
     def __init__(self, ex, N, src, snk):
         self.ex, self.N, self.src, self.snk = ex, N, src, snk
+
+    def allocate(self, heap):
+        """Allocate the N placeholders in `heap`; returns the function index -> reference."""
+        newobj = z3.Function(f'newobj!{next(_cnt)}', I, I)
+        j, j2, x = fresh('j'), fresh('j'), fresh('x')
+        N = self.N
+        self.ex.pc.append(N >= 0)
+        self.ex.pc.append(z3.ForAll([j], z3.Implies(z3.And(j >= 0, j < N), z3.And(newobj(j) != 0, z3.Not(z3.Select(heap.alloc, newobj(j)))))))
+        self.ex.pc.append(z3.ForAll([j, j2], z3.Implies(z3.And(j >= 0, j < N, j2 >= 0, j2 < N, j != j2), newobj(j) != newobj(j2))))
+        isnew = z3.Exists([j], z3.And(j >= 0, j < N, newobj(j) == x))
+        heap.alloc = z3.Lambda([x], z3.Or(isnew, z3.Select(heap.alloc, x)))
+        heap.kind = z3.Lambda([x], z3.If(isnew, z3.IntVal(MISSING), z3.Select(heap.kind, x)))
+        heap.source = z3.Lambda([x], z3.If(isnew, self.src, z3.Select(heap.source, x)))
+        heap.sink = z3.Lambda([x], z3.If(isnew, self.snk, z3.Select(heap.sink, x)))
+        return lambda i: newobj(i)
 
     def install(self, seq, heap):
         newobj = z3.Function(f'newobj!{next(_cnt)}', I, I)
@@ -730,8 +838,10 @@ def _handler_names(h):
 
 # ----------------------------------------------------------------------------- the invariant WF
 
-def WF(h, pos=None, cands=None):
+def WF(h, pos=None, cands=None, relax=None):
     """List of (name, closed formula) conjuncts of the well-formedness invariant over an arbitrary heap.
+    relax=(S0, j0): the weaker form that holds INSIDE a loop that docks the streams of port list S0 one by one: I1 is only
+    demanded of S0's positions < j0 and I4 (fixed size) is not demanded of S0 (it is re-established after the loop).
     pos=(posIn, posOut): I2 in Skolemised form (use for hypotheses).  cands(s, inlet_side) -> candidate witness index terms:
     I2 as a finite disjunction that implies the existential (use for goals)."""
     u, S, s, i, j = z3.Ints('u S s i j')
@@ -761,10 +871,11 @@ def WF(h, pos=None, cands=None):
               z3.ForAll([s], z3.Implies(z3.And(al(s), z3.Or(k(s) == STREAM, k(s) == MISSING)), z3.And(
                   z3.Or(z3.Select(h.sink, s) == 0, z3.And(al(z3.Select(h.sink, s)), k(z3.Select(h.sink, s)) == UNIT)),
                   z3.Or(z3.Select(h.source, s) == 0, z3.And(al(z3.Select(h.source, s)), k(z3.Select(h.source, s)) == UNIT)))))))
+    done = (lambda S_, i_: z3.BoolVal(True)) if relax is None else (lambda S_, i_: z3.Or(S_ != relax[0], i_ < relax[1]))
     C.append(('I1: a stream listed among a unit\'s inlets (outlets) has that unit as its sink (source)',
               z3.ForAll([S, i], z3.And(
-                  z3.Implies(z3.And(al(S), k(S) == INLETS, inr(S, i)), z3.Select(h.sink, h.el(S, i)) == z3.Select(h.sink, S)),
-                  z3.Implies(z3.And(al(S), k(S) == OUTLETS, inr(S, i)), z3.Select(h.source, h.el(S, i)) == z3.Select(h.source, S))),
+                  z3.Implies(z3.And(al(S), k(S) == INLETS, inr(S, i), done(S, i)), z3.Select(h.sink, h.el(S, i)) == z3.Select(h.sink, S)),
+                  z3.Implies(z3.And(al(S), k(S) == OUTLETS, inr(S, i), done(S, i)), z3.Select(h.source, h.el(S, i)) == z3.Select(h.source, S))),
                         **pat1)))
     def listed(seq_of, owner_field, s_):
         U = z3.Select(owner_field, s_)
@@ -784,8 +895,9 @@ def WF(h, pos=None, cands=None):
     C.append(('I3: no stream occupies two ports of one list',
               z3.ForAll([S, i, j], z3.Implies(z3.And(al(S), z3.Or(k(S) == INLETS, k(S) == OUTLETS), inr(S, i), inr(S, j), i != j), h.el(S, i) != h.el(S, j)),
                         **pat2)))
+    notrel = (lambda S_: z3.BoolVal(True)) if relax is None else (lambda S_: S_ != relax[0])
     C.append(('I4: port lists of fixed size keep their size',
-              z3.ForAll([S], z3.Implies(z3.And(al(S), z3.Or(k(S) == INLETS, k(S) == OUTLETS), z3.Select(h.fixed, S)), ln(S) == z3.Select(h.fsize, S)))))
+              z3.ForAll([S], z3.Implies(z3.And(al(S), z3.Or(k(S) == INLETS, k(S) == OUTLETS), z3.Select(h.fixed, S), notrel(S)), ln(S) == z3.Select(h.fsize, S)))))
     C.append(('I5: a placeholder belongs to one side only (inlet placeholders have no source, outlet placeholders no sink)',
               z3.ForAll([S, i], z3.And(
                   z3.Implies(z3.And(al(S), k(S) == INLETS, inr(S, i), k(h.el(S, i)) == MISSING), z3.Select(h.source, h.el(S, i)) == 0),
